@@ -222,6 +222,15 @@ def evaluate__map_merge(self: XPathFunction, context: ta.ContextType = None) -> 
                 else:
                     raise self.error('FOJS0005')
 
+    def combine(value1: Any, value2: Any) -> Any:
+        # sequence concatenation into a NEW sequence: the values of the operand maps are not touched
+        result = xlist(value1) if isinstance(value1, list) else xlist([value1])
+        if isinstance(value2, list):
+            result.extend(value2)
+        else:
+            result.append(value2)
+        return result
+
     items: dict[Any, Any] = {}
     for map_ in self[0].select(context):
         assert isinstance(map_, XPathMap)
@@ -237,10 +246,7 @@ def evaluate__map_merge(self: XPathFunction, context: ta.ContextType = None) -> 
                     items.pop(k1)  # remove before to replace the key
                     items[k1] = v
                 elif duplicates == 'combine':
-                    try:
-                        items[k1].append(v)
-                    except AttributeError:
-                        items[k1] = [items[k1], v]
+                    items[k1] = combine(items[k1], v)
                 continue
 
             # TODO: too slow. An alternative idea is to couple with the type
@@ -253,10 +259,7 @@ def evaluate__map_merge(self: XPathFunction, context: ta.ContextType = None) -> 
                         items.pop(k2)  # remove before to replace the key
                         items[k1] = v
                     elif duplicates == 'combine':
-                        try:
-                            items[k2].append(v)
-                        except AttributeError:
-                            items[k2] = [items[k2], v]
+                        items[k2] = combine(items[k2], v)
                     break
             else:
                 items[k1] = v
